@@ -247,6 +247,29 @@ class Engine(Interp):
             if args and not (isinstance(args[0], int) and args[0] == -1):
                 return self.list_pick(l, node, 'pop(i) from empty list', remove=True)
             return self.list_pick(l, node, 'pop from empty list', remove=True, want_last=True)
+        if name == 'extend' and not l.isset:
+            other = args[0]
+            if isinstance(other, DictObj):
+                other = self.to_list(other, node)
+            if not isinstance(other, ListObj):
+                raise OutOfSubset("list.extend with a non-list")
+            if other.isset or getattr(other, 'hash_ordered', False):
+                # C10: the elements of a set arrive in hash order: the order of the extended LIST depends on the hash seed
+                fq = self.fn_stack[-1].qual if self.fn_stack else '?'
+                self.oblige(f"det:{fq}:C10-iteration-order-independent-of-the-hash-seed@{self.site(node)}", 'det', False, node)
+            self.bag_facts(l)
+            self.bag_facts(other)
+            if getattr(l, 'frozen', False):
+                raise OutOfSubset("list mutated while it is being iterated")
+            new = fresh_list('extended', l.elem or other.elem)
+            x = z3.Int(fresh_name('ex'))
+            self.st.assume(z3.ForAll([x], z3.Select(new.cnt, x) == z3.Select(l.cnt, x) + z3.Select(other.cnt, x)))
+            self.st.assume(new.n == l.n + other.n)
+            l.cnt, l.n = new.cnt, new.n
+            l.last = None
+            if hasattr(l, '_seq'):
+                l._seq = None
+            return None
         if name == 'update' and l.isset:
             other = args[0]
             if not isinstance(other, ListObj):
